@@ -310,7 +310,8 @@ def c_constraint_mode_ctor(c, order, where):
 # ---- C07 --------------------------------------------------------------------------------------------------------------
 def c07_cases(tier, seed):
     toggles = [list(t) for t in itertools.product((False, True), repeat=3)]
-    return [(place, t) for place in ("top", "top_newest", "nested", "list", "list_last") for t in toggles]
+    return [(place, t, how) for place in ("top", "top_newest", "nested", "list", "list_last") for t in toggles
+            for how in ("plain", "raw_mode")]
 
 
 @contract("api_objects.constraint_mode", ["C07"],
@@ -322,9 +323,9 @@ def c07_cases(tier, seed):
            "vsc.model.field_composite_model.FieldCompositeModel.get_constraint"],
           c07_cases, kind="bounded",
           bound="3-level class hierarchy with an overridden block name; instances top-level / nested in another object / elements of a "
-                "list; every on/off sequence of length 3 on one block, interleaved with calls; a sibling instance and an instance "
-                "created later observed throughout")
-def c_constraint_mode(c, place, toggles):
+                "list; every on/off sequence of length 3 on one block (called plainly or inside `with vsc.raw_mode()`), interleaved "
+                "with calls; a sibling instance and an instance created later observed throughout")
+def c_constraint_mode(c, place, toggles, how="plain"):
     import vsc
 
     @vsc.randobj
@@ -403,7 +404,11 @@ def c_constraint_mode(c, place, toggles):
             enforced(tgt, True) and enforced(sib, True), info="%r %r" % (_vals(tgt, "abd"), _vals(sib, "abd")))
     state = True
     for t in toggles:
-        tgt.cb.constraint_mode(t)
+        if how == "raw_mode":
+            with vsc.raw_mode():             # the idiom used for rand_mode; a constraint_mode call may sit in the same block
+                tgt.cb.constraint_mode(t)
+        else:
+            tgt.cb.constraint_mode(t)
         state = t
         # with cb off, b != 7 must be satisfiable; with cb on it must not be
         ok, e = _solves(lambda: _rw(root_t, (lambda it: it.x.b != 7) if place == "nested" else
